@@ -15,7 +15,7 @@ SPEC_PART = dict(
            "byte, any numAtCurMin / auxCount field, trailing bytes, finite non-negative estimator fields -- to its k register bytes, "
            "recomputed num_zeros, the flag's out-of-order state, the encoded kxq0 / kxq1 and the encoded HIP accumulator (zero when "
            "out of order) (c13_hll_hll8_variants_partial): proved; for set (compact in any order / updatable table with colliding "
-           "probe sequences) and the other array variants (Hll4/6 x COMPACT x OUT_OF_ORDER x cur_min > 0 x smallest-possible "
+           "probe sequences, incl. the fullest valid table of 3/4 size followed by novel updates) and the other array variants (Hll4/6 x COMPACT x OUT_OF_ORDER x cur_min > 0 x smallest-possible "
            "exception x lgArr byte) the claim is checked, not proved: each spec-encoded image must be accepted and the dumped state "
            "must be exactly what the independent decoder reads from the same bytes (mode, lg_k, type, coupon set / registers, flag, "
            "cur_min, exceptions, kxq, hip); then, in lock step with the model (ops in the mask): estimate and six bounds (in-order "
